@@ -92,10 +92,7 @@ Proof.
       pose proof (Z.mod_pos_bound q p32 ltac:(reflexivity)) as Hql. fold ql in Hql.
       set (qh := q / p32) in *.
       assert (H3 : p64 - 2*r0 <= (u+qh)*p32 + ql < p64) by lia.
-      change p64 with (p32*p32) in H3.
-      assert (u + qh < p32) by nia.
-      assert (u + qh >= p32 - 1) by nia.
-      nia. }
+      clear - H3 Hql Hgood Hr0. unfold p64, p32 in *. lia. }
     split; [lia|]. exists k. split; [left; reflexivity|].
     apply Z.abs_le. change p63 with (p31*p32) in *. unfold p31, p32 in *. nia.
   - assert (Hvm : v mod p64 = v - p64).
